@@ -3,7 +3,9 @@
 package xmss
 
 import (
+	"fmt"
 	"reflect"
+	"strings"
 	"unsafe"
 )
 
@@ -28,64 +30,72 @@ func verifLeafSeam(leaf []uint8, lTreeAddr, otsAddr *[8]uint32) bool {
 	return true
 }
 
-// VerifTreeHash is a copy of one tree-hash instance.
-type VerifTreeHash struct {
-	H          uint32
-	NextIdx    uint32
-	StackUsage uint32
-	Completed  uint8
-	Node       []uint8
+// VerifField is one leaf field of the object's state, addressed by its path
+// (e.g. "bdsState.treeHash[2].node").
+type VerifField struct {
+	Path string
+	Data []uint8
 }
 
-// VerifState is a copy of the complete signer state of an XMSS object.
+// VerifState is a copy of the complete signer state of an XMSS object, taken
+// by reflection so that it follows whatever fields the structs have. Auth and
+// SK are the fields named "auth" (inside the BDS state) and "sk", or nil if the
+// library no longer has fields of those names.
 type VerifState struct {
-	Height       uint8
-	HashFunction HashFunction
-	Seed         []uint8
-	SK           []uint8
-	StackOffset  uint32
-	Stack        []uint8 // whole buffer, including entries above StackOffset
-	StackLevels  []uint8
-	Auth         []uint8
-	Keep         []uint8
-	Retain       []uint8
-	NextLeaf     uint32
-	TreeHash     []VerifTreeHash
-	ParamN       uint32
-	ParamH       uint32
-	ParamK       uint32
-	ParamW       uint32
-	Desc         [3]uint8
-}
-
-func verifDup(b []uint8) []uint8 {
-	c := make([]uint8, len(b))
-	copy(c, b)
-	return c
+	Auth   []uint8
+	SK     []uint8
+	Fields []VerifField
 }
 
 // VerifSnapshot returns a deep copy of the object's state.
 func (x *XMSS) VerifSnapshot() *VerifState {
-	s := &VerifState{
-		Height:       x.height,
-		HashFunction: x.hashFunction,
-		Seed:         verifDup(x.seed[:]),
-		SK:           verifDup(x.sk),
-		StackOffset:  x.bdsState.stackOffset,
-		Stack:        verifDup(x.bdsState.stack),
-		StackLevels:  verifDup(x.bdsState.stackLevels),
-		Auth:         verifDup(x.bdsState.auth),
-		Keep:         verifDup(x.bdsState.keep),
-		Retain:       verifDup(x.bdsState.retain),
-		NextLeaf:     x.bdsState.nextLeaf,
-		ParamN:       x.xmssParams.n,
-		ParamH:       x.xmssParams.h,
-		ParamK:       x.xmssParams.k,
-		ParamW:       x.xmssParams.wotsParams.w,
-		Desc:         x.desc.GetBytes(),
+	s := &VerifState{}
+	seen := map[uintptr]bool{}
+	var walk func(path string, v reflect.Value)
+	walk = func(path string, v reflect.Value) {
+		switch v.Kind() {
+		case reflect.Ptr:
+			if v.IsNil() || seen[v.Pointer()] {
+				return
+			}
+			seen[v.Pointer()] = true
+			walk(path, v.Elem())
+		case reflect.Struct:
+			for i := 0; i < v.NumField(); i++ {
+				p := v.Type().Field(i).Name
+				if path != "" {
+					p = path + "." + p
+				}
+				walk(p, v.Field(i))
+			}
+		case reflect.Slice, reflect.Array:
+			if v.Kind() == reflect.Slice && v.IsNil() {
+				return
+			}
+			if v.Type().Elem().Kind() == reflect.Uint8 {
+				b := make([]uint8, v.Len())
+				for i := range b {
+					b[i] = uint8(v.Index(i).Uint())
+				}
+				s.Fields = append(s.Fields, VerifField{path, b})
+				return
+			}
+			for i := 0; i < v.Len(); i++ {
+				walk(fmt.Sprintf("%s[%d]", path, i), v.Index(i))
+			}
+		case reflect.Bool, reflect.Int, reflect.Int8, reflect.Int16, reflect.Int32, reflect.Int64,
+			reflect.Uint, reflect.Uint8, reflect.Uint16, reflect.Uint32, reflect.Uint64, reflect.Uintptr, reflect.String:
+			s.Fields = append(s.Fields, VerifField{path, []uint8(fmt.Sprintf("%v", v))})
+		}
 	}
-	for _, t := range x.bdsState.treeHash {
-		s.TreeHash = append(s.TreeHash, VerifTreeHash{t.h, t.nextIdx, t.stackUsage, t.completed, verifDup(t.node)})
+	walk("", reflect.ValueOf(x))
+	for _, f := range s.Fields {
+		switch {
+		case f.Path == "sk":
+			s.SK = f.Data
+		case strings.HasSuffix(f.Path, ".auth") || f.Path == "auth":
+			s.Auth = f.Data
+		}
 	}
 	return s
 }
